@@ -61,4 +61,43 @@ def unmarshal (data : Bytes) : Outcome (List PcoUnit) :=
   | [] => .err .trunc
   | _ :: rest => unmarshalLoop rest.length rest []
 
+/-! ## the `Add…` builders (one call = one unit appended, or an error and nothing appended) -/
+
+/-- `net.IP.To4`: a 4-octet address is itself; a 16-octet IPv4-mapped address (`::ffff:a.b.c.d`) is its last four octets -/
+def ipTo4 (ip : Bytes) : Option Bytes :=
+  if ip.length = 4 then some ip
+  else if ip.length = 16 ∧ ip.take 10 = List.replicate 10 0 ∧ ip.getD 10 0 = 0xff ∧ ip.getD 11 0 = 0xff then some (ip.drop 12)
+  else none
+
+/-- `net.IP.To16`: a 4-octet address becomes IPv4-mapped, a 16-octet address is itself -/
+def ipTo16 (ip : Bytes) : Option Bytes :=
+  if ip.length = 4 then some (List.replicate 10 0 ++ [0xff, 0xff] ++ ip)
+  else if ip.length = 16 then some ip
+  else none
+
+inductive Build
+  | dns4Req | dns6Req | ipAllocNas                 -- the three UL requests without contents
+  | dns4 (ip : Bytes) | pcscf4 (ip : Bytes) | dns6 (ip : Bytes)
+  | mtu4 (mtu : Nat)                               -- `uint16`
+deriving DecidableEq, Repr
+
+/-- one builder call: the unit it appends, or `none` when the call reports an error -/
+def buildUnit : Build → Option PcoUnit
+  | .dns4Req => some ⟨0x000d, 0, []⟩
+  | .dns6Req => some ⟨0x0003, 0, []⟩
+  | .ipAllocNas => some ⟨0x000a, 0, []⟩
+  | .dns4 ip => (ipTo4 ip).map fun a => ⟨0x000d, 4, a⟩
+  | .pcscf4 ip => (ipTo4 ip).map fun a => ⟨0x000c, 4, a⟩
+  | .dns6 ip => if ip.length = 16 then (ipTo16 ip).map fun a => ⟨0x0003, 16, a⟩ else none
+  | .mtu4 m => some ⟨0x0010, 2, [UInt8.ofNat (m / 256), UInt8.ofNat m]⟩
+
+/-- a script of builder calls on `NewProtocolConfigurationOptions()`: the list built and, per call, whether it succeeded -/
+def build : List Build → List PcoUnit × List Bool
+  | [] => ([], [])
+  | b :: r =>
+    let (us, oks) := build r
+    match buildUnit b with
+    | some u => (u :: us, true :: oks)
+    | none => (us, false :: oks)
+
 end NasVerif.Model.Pco
